@@ -33,6 +33,7 @@ type c13Manager struct {
 	mu          sync.Mutex
 	started     map[int64]int    // collection id -> StartReadCollection calls
 	startedInfo map[int64]string // state the collection was announced with
+	startedDB   map[int64]string // database the collection was announced in (it decides the task's selection and the downstream database)
 	parts       map[int64]int    // partition id -> AddPartition calls
 	droppedColl map[int64]bool
 	droppedPart map[int64]bool
@@ -44,6 +45,10 @@ func (m *c13Manager) StartReadCollection(ctx context.Context, db *model.Database
 	defer m.mu.Unlock()
 	m.started[info.ID]++
 	m.startedInfo[info.ID] = info.State.String()
+	if m.startedDB == nil {
+		m.startedDB = map[int64]string{}
+	}
+	m.startedDB[info.ID] = db.Name
 	m.log = append(m.log, fmt.Sprintf("start(%d,%s/%s,%s)", info.ID, db.Name, info.Schema.Name, info.State))
 	return nil
 }
@@ -197,6 +202,9 @@ func c13Run(t *testing.T, sc *c13Scenario, ctl *sched.Ctl) sched.Outcome {
 			liveColl[x.ID] = x
 			if mgr.started[x.ID] == 0 {
 				add("C13/missed-collection", "collection %d (%s in db %d, created at %d) is live in the source catalog but was never started", x.ID, x.Name, x.DB, x.CreateTs)
+			} else if got := mgr.startedDB[x.ID]; got != d.Name {
+				// (a task that selects by database would not have selected it, and its data would go to another database)
+				add("C13/started-in-wrong-database", "collection %d (%s) lives in database %d (%s) but its replication was started with database %q", x.ID, x.Name, x.DB, d.Name, got)
 			}
 		}
 	}
@@ -280,10 +288,11 @@ func c13Scenarios(thorough bool) []*c13Scenario {
 		mk("drop+recreate-during", []catOp{cc(1, "a")}, []catOp{{Kind: "dropColl", DB: 1, Name: "a"}, {Kind: "droppedColl", DB: 1, Name: "a"}, cc(1, "a")}),
 		mk("two-dbs-partition", []catOp{{Kind: "createDB", DB: 2, Name: "db1"}}, []catOp{cc(1, "a"), {Kind: "createPart", DB: 1, Name: "a"}}),
 		mk("two-dbs-other-partition", []catOp{{Kind: "createDB", DB: 2, Name: "db1"}}, []catOp{cc(101, "a"), {Kind: "createPart", DB: 101, Name: "a"}}),
+		// a database that is created after the task has started, and a collection in it
+		mk("db+collection-during", nil, []catOp{{Kind: "createDB", DB: 2, Name: "db1"}, cc(101, "a"), {Kind: "createPart", DB: 101, Name: "a"}}),
 	}
 	if thorough {
 		out = append(out,
-			mk("db+collection-during", nil, []catOp{{Kind: "createDB", DB: 2, Name: "db1"}, cc(101, "a"), {Kind: "createPart", DB: 101, Name: "a"}}),
 			mk("two-collections-during", nil, []catOp{cc(1, "a"), cc(1, "b"), {Kind: "createPart", DB: 1, Name: "b"}}),
 			mk("drop-gc-recreate", []catOp{cc(1, "a")}, []catOp{{Kind: "dropColl", DB: 1, Name: "a"}, {Kind: "gcColl", DB: 1, Name: "a"}, cc(1, "a"), {Kind: "createPart", DB: 1, Name: "a"}}),
 		)
